@@ -1,6 +1,7 @@
 package main
 
 import (
+	"time"
 	"fmt"
 	"io"
 	"os"
@@ -147,7 +148,20 @@ func (s *dpState) cleanup() {
 
 // writeIndex writes rows with the named writer (mem: IndexWriter.Flush to a file; memdb:
 // IndexWriter.WriteToBoltDatabase into a caller-supplied DB; big: BigIndexWriter).
-func writeIndex(file, writer string, rows []map[string]string) (res *builtIndex) {
+// writeIndex builds an index file; a writer that does not come back within five minutes counts
+// as HANG (its goroutine is abandoned) so that the run still ends with a verdict.
+func writeIndex(file, writer string, rows []map[string]string) *builtIndex {
+	ch := make(chan *builtIndex, 1)
+	go func() { ch <- writeIndexNow(file, writer, rows) }()
+	select {
+	case r := <-ch:
+		return r
+	case <-time.After(5 * time.Minute):
+		return &builtIndex{file: "", outcome: "HANG"}
+	}
+}
+
+func writeIndexNow(file, writer string, rows []map[string]string) (res *builtIndex) {
 	res = &builtIndex{file: file, outcome: "OK"}
 	msg, ok := guard(func() {
 		switch writer {
